@@ -17,9 +17,9 @@ namespace Log4rs.System
 open Log4rs Log4rs.Routing Log4rs.Routing.Tree Log4rs.Pattern Log4rs.Pattern.Parse
 
 /-- hypotheses of the end-to-end theorems: the routing part is what `ConfigBuilder::build` returns
-(`Valid`, C13), the platform behaves like the current code on ASCII, and every appender's pattern is
-a printed well-formed AST (as in C09) -/
-structure SysWF (cfg : SysConfig) (asts : Name → List Pat) : Prop where
+(`Valid`, C13), the platform behaves like the current code on ASCII, and every pattern appender's
+pattern is a printed well-formed AST (as in C09). Appenders may be file or rolling appenders. -/
+structure SysWFR (cfg : SysConfig) (asts : Name → List Pat) : Prop where
   valid : Valid cfg.routing
   cc : CCAscii cfg.cc
   us : cfg.P.underscoreNames = true
@@ -28,6 +28,11 @@ structure SysWF (cfg : SysConfig) (asts : Name → List Pat) : Prop where
   mdcE : cfg.B.mdcEmptyOk = true
   printed : ∀ a ∈ cfg.routing.appenders, (cfg.app a).kind = .pattern → (cfg.app a).pattern = showPats (asts a)
   wf : ∀ a ∈ cfg.routing.appenders, (cfg.app a).kind = .pattern → WF cfg.P (asts a)
+
+/-- … and every appender is a plain file appender (the hypothesis of the stage-1 / reconfiguration
+theorems, which speak about file contents) -/
+structure SysWF (cfg : SysConfig) (asts : Name → List Pat) : Prop extends SysWFR cfg asts where
+  noRolling : ∀ a ∈ cfg.routing.appenders, (cfg.app a).rolling = none
 
 /-- chrono accepts the date formats of every pattern the record is actually encoded with (`DatesOk`
 of C09, asked only of the appenders that receive at least one copy of the record) -/
@@ -100,14 +105,15 @@ theorem openApp_ok (cfg : SysConfig) (asts : Name → List Pat) (h : SysWF cfg a
     (ha : a ∈ cfg.routing.appenders) :
     openApp cfg a = .ok { enc := chunksFor cfg asts a,
                           file := { disk := Rolling.openContent (cfg.app a).mode (cfg.app a).pre, buf := [] } } := by
+  have hr := h.noRolling a ha
   cases hk : (cfg.app a).kind with
-  | json => simp [openApp, hk, chunksFor, Rolling.FileAppender.build]
+  | json => simp [openApp, openSink, hr, hk, chunksFor, Rolling.FileAppender.build]
   | pattern =>
     have hp := C09_parse_show cfg.cc h.cc cfg.P h.us h.dcp (asts a) (h.wf a ha hk)
-    simp [openApp, hk, newEncoder, h.printed a ha hk, hp, omap, chunksFor, Rolling.FileAppender.build]
+    simp [openApp, openSink, hr, hk, newEncoder, h.printed a ha hk, hp, omap, chunksFor, Rolling.FileAppender.build]
 
 /-- what the built encoder of `a` writes for a record is the specification's line -/
-theorem encode_ok (cfg : SysConfig) (asts : Name → List Pat) (h : SysWF cfg asts) (a : Name)
+theorem encode_ok (cfg : SysConfig) (asts : Name → List Pat) (h : SysWFR cfg asts) (a : Name)
     (ha : a ∈ cfg.routing.appenders) (r : SysRecord)
     (hd : (cfg.app a).kind = .pattern → DatesOk cfg.B r.env (asts a)) :
     encodeWith (chunksFor cfg asts a) r = .ok (specLine cfg asts a r) := by
@@ -176,7 +182,7 @@ theorem appendOne_stateOf (cfg : SysConfig) (asts : Name → List Pat) (h : SysW
     exact getApp_map _ (fun b => { enc := chunksFor cfg asts b, file := { disk := c b, buf := [] } }) a ha
   simp only [appendOne, hg, runChain_thresholds]
   by_cases hacc : specAccepts (cfg.app a).thresholds r.level = true
-  · have ho := encode_ok cfg asts h a ha r (hd hacc)
+  · have ho := encode_ok cfg asts h.toSysWFR a ha r (hd hacc)
     simp only [hacc, if_true, ho, and_true]
     congr 1
     simp only [stateOf]
